@@ -816,7 +816,9 @@ func checkSortedSearch(r *Run, p *Prog) {
 	r.Ob("C11.R6.search", "binary searches in the cluster packages run on ordered slices", "", true, fmt.Sprintf("%d binary search call(s) examined", n))
 }
 
-// checkVerdictGuards decides C11.R7.
+// checkVerdictGuards decides C11.R7 by truth table (E17): over the four combinations of
+// "the key is among the juror's approvals" and "the key is not above every known key",
+// verdict may return a nil error only when both are false.
 func checkVerdictGuards(r *Run, p *Prog) {
 	fn := p.Func(pledgePkg, "juror", "verdict")
 	approvals := p.FieldOf(pledgePkg, "juror", "approvals")
@@ -824,122 +826,85 @@ func checkVerdictGuards(r *Run, p *Prog) {
 		r.Undecide("C11.R7: juror.verdict / juror.approvals not found")
 		return
 	}
-	c := p.CFG(fn)
 	req := paramObj(fn, 1)
-	isReqKey := func(e ast.Expr) bool {
-		f, ok := isFieldOfObj(fn, e, req)
-		return ok && f == "Key"
-	}
-	notApproved := c.EdgesEstablishing(func(atom ast.Expr, val bool) bool {
-		call, ok := ast.Unparen(atom).(*ast.CallExpr)
-		if !ok || val || len(call.Args) != 2 {
-			return false
-		}
-		f := CalleeFunc(fn, call)
-		if f == nil || f.Name() != "Contains" {
-			return false
-		}
-		sel, ok := ast.Unparen(call.Args[0]).(*ast.SelectorExpr)
-		return ok && fieldVar(fn, sel) == approvals && isReqKey(call.Args[1])
-	})
-	above := c.EdgesEstablishing(func(atom ast.Expr, val bool) bool {
-		be, ok := ast.Unparen(atom).(*ast.BinaryExpr)
-		if !ok {
-			return false
-		}
-		highest := func(e ast.Expr) bool {
-			call, ok := ast.Unparen(e).(*ast.CallExpr)
-			if !ok {
+	classify := func(ev *ttEval, st *ttState, f *FuncNode, e ast.Expr) (string, bool, bool) {
+		isReqKey := func(x ast.Expr) bool {
+			f2, x2 := ev.resolve(st, f, x)
+			sel, ok := ast.Unparen(x2).(*ast.SelectorExpr)
+			if !ok || sel.Sel.Name != "Key" {
 				return false
 			}
-			f := CalleeFunc(fn, call)
-			return f != nil && f.Name() == "highestNodeID"
+			f3, x3 := ev.resolve(st, f2, sel.X)
+			return objOf(f3, x3) == req
 		}
-		switch {
-		case isReqKey(be.X) && highest(be.Y):
-			return (be.Op == token.LEQ && !val) || (be.Op == token.GTR && val)
-		case highest(be.X) && isReqKey(be.Y):
-			return (be.Op == token.GEQ && !val) || (be.Op == token.LSS && val)
-		}
-		return false
-	})
-	var errRes types.Object
-	if res := fn.Type.Results; res != nil && len(res.List) == 1 && len(res.List[0].Names) == 1 {
-		errRes = fn.Pkg.TypesInfo.Defs[res.List[0].Names[0]]
-	}
-	for _, g := range []struct {
-		name  string
-		edges map[edge]bool
-	}{{"the key is not among the juror's earlier approvals", notApproved}, {"the key is above every key the juror knows", above}} {
-		var path []string
-		if len(g.edges) > 0 {
-			path = verdictSearchAvoiding(c, fn, errRes, g.edges)
-		}
-		r.ObPath("C11.R7.verdict", "juror.verdict approves only when "+g.name, p.Position(fn.Pos()), len(g.edges) > 0 && path == nil,
-			"an approval is reachable without this test having come out in the proposal's favour", path)
-	}
-}
-
-// verdictSearchAvoiding: is a nil-error return of fn reachable from entry without crossing
-// one of the edges, tracking whether the named result was given a certain error?
-func verdictSearchAvoiding(c *FuncCFG, fn *FuncNode, errRes types.Object, avoid map[edge]bool) []string {
-	type st struct {
-		pt       Point
-		rejected bool
-	}
-	seen := map[st]bool{}
-	parent := map[st]st{}
-	start := st{c.Entry(), false}
-	seen[start] = true
-	work := []st{start}
-	for len(work) > 0 {
-		cur := work[len(work)-1]
-		work = work[:len(work)-1]
-		b, idx, rej := cur.pt.B, cur.pt.I, cur.rejected
-		if idx >= 0 && idx < len(b.Nodes) {
-			switch v := b.Nodes[idx].(type) {
-			case *ast.AssignStmt:
-				for i, l := range v.Lhs {
-					if errRes != nil && objOf(fn, l) == errRes && len(v.Lhs) == len(v.Rhs) {
-						rej = certainErr(fn, v.Rhs[i], v)
-					}
+		switch v := ast.Unparen(e).(type) {
+		case *ast.CallExpr:
+			if g := CalleeFunc(f, v); g != nil && g.Name() == "Contains" && len(v.Args) == 2 {
+				_, a0 := ev.resolve(st, f, v.Args[0])
+				if sel, ok := ast.Unparen(a0).(*ast.SelectorExpr); ok && sel.Sel.Name == "approvals" && isReqKey(v.Args[1]) {
+					return "seen", false, true
 				}
-			case *ast.ReturnStmt:
-				success := false
-				if len(v.Results) == 0 {
-					success = !rej
-				} else {
-					success = mayReturnNilError(fn, v)
+			}
+		case *ast.BinaryExpr:
+			highest := func(x ast.Expr) bool {
+				_, x2 := ev.resolve(st, f, x)
+				call, ok := ast.Unparen(x2).(*ast.CallExpr)
+				if !ok {
+					return false
 				}
-				if success {
-					var out []string
-					for x, ok := cur, true; ok && len(out) < 30; x, ok = parent[x] {
-						if x.pt.I >= 0 && x.pt.I < len(x.pt.B.Nodes) {
-							out = append([]string{c.P.Position(x.pt.B.Nodes[x.pt.I].Pos())}, out...)
-						}
-					}
-					return out
+				g := CalleeFunc(f, call)
+				return g != nil && g.Name() == "highestNodeID"
+			}
+			switch {
+			case isReqKey(v.X) && highest(v.Y):
+				switch v.Op {
+				case token.LEQ:
+					return "low", false, true
+				case token.GTR:
+					return "low", true, true
 				}
-				continue
+			case highest(v.X) && isReqKey(v.Y):
+				switch v.Op {
+				case token.GEQ:
+					return "low", false, true
+				case token.LSS:
+					return "low", true, true
+				}
 			}
 		}
-		push := func(to st) {
-			if !seen[to] {
-				seen[to] = true
-				parent[to] = cur
-				work = append(work, to)
-			}
+		return "", false, false
+	}
+	outcome := func(f *FuncNode, ret *ast.ReturnStmt, results []ttVal) string {
+		switch ttErrOutcome(ret, results) {
+		case "ok":
+			return "approved"
+		case "fail":
+			return "rejected"
 		}
-		if idx+1 < len(b.Nodes) {
-			push(st{Point{b, idx + 1}, rej})
+		return "delegated"
+	}
+	table, bad := ttTable(p, fn, []string{"seen", "low"}, classify, outcome, false)
+	if bad != "" {
+		r.Undecide("C11.R7: juror.verdict could not be evaluated: %s", bad)
+		return
+	}
+	okSeen, okLow, approves := true, true, false
+	for mask, outs := range table {
+		if !outs["approved"] {
 			continue
 		}
-		for si, succ := range b.Succs {
-			if avoid[edge{b, si}] {
-				continue
-			}
-			push(st{Point{succ, -1}, rej})
+		if mask == 0 {
+			approves = true
+		}
+		if mask&1 != 0 {
+			okSeen = false
+		}
+		if mask&2 != 0 {
+			okLow = false
 		}
 	}
-	return nil
+	r.Ob("C11.R7.verdict", "juror.verdict approves only when the key is not among the juror's earlier approvals", p.Position(fn.Pos()), okSeen && approves,
+		"an approval is possible for a key the juror already approved (truth table over the two tests)")
+	r.Ob("C11.R7.verdict", "juror.verdict approves only when the key is above every key the juror knows", p.Position(fn.Pos()), okLow && approves,
+		"an approval is possible for a key that is not above the highest known key (truth table over the two tests)")
 }
